@@ -48,7 +48,9 @@ def values_for(base, delim):
     w = base.itemsize
     d = delim.encode()
     return [b"", b"a" * w, (b" a" + b"x" * w)[:w], (b"a " + b" " * w)[:w], (b"a b" + b"c" * w)[:w], b" " * w,
-            (d + b"q" + d * w)[:w], (b"\ta" + b"\t" * w)[:w], b"END"[:w], b"a", (b"z" + d)[:w]]
+            (d + b"q" + d * w)[:w], (b"\ta" + b"\t" * w)[:w], b"END"[:w], b"a", (b"z" + d)[:w],
+            # zero bytes inside the width: only TRAILING zero bytes are padding of a fixed-width field
+            (b"A\0B" + b"c" * w)[:w], (b"\0\0z")[:w], (b"p\0" + d + b"\0q")[:w]]
 
 
 def make_text_table(descr, nrows, delim, voff):
@@ -364,3 +366,7 @@ def main(ctx):
     from mc.handles import several_handles
     several_handles(ctx, "several-text-handles", ["colon", "comma", "pipe"], depth=ctx.pick(4, 5),
                     selections=[("all",), ("cols", ("b", "a")), ("rowscols", (1,), ("s", "b"))], nodedup_depth=ctx.pick(3, 4))
+
+    # ------------------------------------------------ headers carried from another file (mc/carried.py)
+    from mc.carried import carried_headers
+    carried_headers(ctx, "carried-headers", DELIMS)
